@@ -88,6 +88,10 @@ func buildTar(sh tarShape, rng *rand.Rand) ([]byte, error) {
 		h.Mode = 0o7777777
 	case "huge":
 		h.Uid, h.Gid = 1<<31-1+1000, 1<<40
+		if sh.Typ == "reg" {
+			h.Size = 1 << 33 // 8 GiB: base-256 in GNU headers, a PAX record otherwise
+			body = nil
+		}
 	}
 	switch sh.Uname {
 	case "ascii":
@@ -99,6 +103,15 @@ func buildTar(sh tarShape, rng *rand.Rand) ([]byte, error) {
 	w := tar.NewWriter(&buf)
 	if err := w.WriteHeader(h); err != nil {
 		return nil, err
+	}
+	if h.Size > 1<<20 {
+		// only the header block(s) matter: the member body is not written
+		w.Flush()
+		out := append([]byte{}, buf.Bytes()...)
+		for len(out) < 1536 {
+			out = append(out, 0)
+		}
+		return out, nil
 	}
 	if len(body) > 0 {
 		w.Write(body)
